@@ -189,6 +189,8 @@ class Acc:
             self.known_msg.setdefault(key, msg)
             return False
         case_j = jsonable(case)
+        if LOG_ON and isinstance(case_j, dict):
+            case_j = dict(case_j, _debug_logging=True)      # part of the case: replay switches it on again
         size = len(json.dumps(case_j))
         old = self.viol.get(key)
         if old is None or size < old["size"]:
@@ -264,6 +266,7 @@ class Ctx:
         if not jobs:
             return
         procs = min(procs or NCPU, len(jobs))
+        jobs = list(enumerate(jobs))
         if procs <= 1:
             for j in jobs:
                 self.acc.merge(_call(fn, j))
@@ -282,8 +285,10 @@ class _Caller:
         return _call(self.fn, job)
 
 
-def _call(fn, job):
+def _call(fn, indexed_job):
+    index, job = indexed_job
     try:
+        debug_logging(job_logging(index))
         # every job starts from the import-time state of the library's shared (class-level) definition objects: which worker
         # process gets which job depends on timing, and results must not
         if "goodwe" in sys.modules:
@@ -294,7 +299,11 @@ def _call(fn, job):
         raise
     except BaseException as ex:  # a crash of the harness code itself inside a worker
         raise HarnessError("worker crashed on job %r: %s\n%s" % (job, ex, traceback.format_exc()))
+    finally:
+        debug_logging(False)
     _linecov_dump()
+    if job_logging(index) and isinstance(res, Acc):
+        res.cls("jobs-with-debug-logging")
     return res.export() if isinstance(res, Acc) else res
 
 
@@ -404,7 +413,10 @@ def finish(ctx: Ctx, *, level: str, rule: str, assumptions, exhaustive: bool | N
     coverage.update(ctx.extra)
     ev = {
         "property_id": ctx.prop, "tier": ctx.tier, "seed": ctx.seed, "level": level,
-        "coverage": coverage, "assumptions": list(assumptions), "wall_s": round(wall, 2),
+        "coverage": coverage, "assumptions": list(assumptions) + [
+            "environment dimension: one job in three of every sharded engine runs with the 'goodwe' logger at DEBUG and a handler that "
+            "formats every record (class jobs-with-debug-logging); a violation found there carries _debug_logging in its replay case"],
+        "wall_s": round(wall, 2),
         "violations": n_viol,
     }
     evdir = os.environ.get("VERIF_EVIDENCE_DIR", os.path.join(VERIF, "evidence"))  # override: mutant self-test only
@@ -421,6 +433,9 @@ def debug_logging(on: bool):
     Home Assistant's debug logging or logging.basicConfig(level=DEBUG) does); formatted text goes nowhere.  Logging is an
     environment dimension of the cases: no property allows results to depend on it."""
     import logging
+    global LOG_ON
+    previous = LOG_ON
+    LOG_ON = bool(on)
     lg = logging.getLogger("goodwe")
     sink = getattr(debug_logging, "_sink", None)
     if sink is None:
@@ -441,6 +456,16 @@ def debug_logging(on: bool):
         lg.setLevel(logging.NOTSET)
         lg.propagate = True
         logging.disable(logging.CRITICAL)
+    return previous
+
+
+LOG_ON = False
+
+
+def job_logging(index: int) -> bool:
+    """One job in three of every sharded engine runs with the application's debug logging switched on (deterministic in the job's
+    position, scrambled so that it does not line up with the order of the configurations)."""
+    return ((index + 1) * 2654435761 >> 9) % 3 == 0
 
 
 def run_sync(coro):
